@@ -467,7 +467,7 @@ func runCodec(c *core.Ctx, keep func(*codecPair) bool) {
 			// A8: the restore is lossless - nothing but the wire contributes to the restored field
 			var foreign []string
 			for k := range fieldOrigins[fp] {
-				if !strings.HasPrefix(k, "wire:") && !strings.HasPrefix(k, "CONST zero") { // a zero value: the default for an absent member
+				if !strings.HasPrefix(k, "wire:") && !strings.HasPrefix(k, "CONST zero") && k != `CONST ""` && k != "CONST 0" && k != "CONST false" && k != "CONST nil" { // a zero value: the default for an absent member, or the companion of a false 'ok' result
 					foreign = append(foreign, k)
 				}
 			}
